@@ -32,6 +32,10 @@ type tcpPeer struct {
 	holdBlocks   bool // do not answer getdata(block)
 	closeOnBlockGetData bool
 	untrusted    bool
+	sendAddrs    bool // an addr message follows the version reply (the node stores peer addresses)
+	blockDelay   time.Duration // replies that contain blocks are written after this delay
+	// hook may answer a message itself (returns true); called without mu held
+	hook         func(tc *tcpConn, msg wire.Message) ([]wire.Message, bool)
 	start        time.Time
 	accepted     int32
 }
@@ -81,6 +85,13 @@ func (p *tcpPeer) acceptLoop() {
 func (tc *tcpConn) write(m wire.Message) error {
 	tc.wmu.Lock()
 	defer tc.wmu.Unlock()
+	if _, isPing := m.(*wire.MsgPing); !isPing {
+		tc.mu.Lock()
+		if len(tc.recvd) < 2000 {
+			tc.recvd = append(tc.recvd, "peer->node "+describeMsg(m))
+		}
+		tc.mu.Unlock()
+	}
 	tc.c.SetWriteDeadline(time.Now().Add(5 * time.Second))
 	_, err := wire.WriteMessageN(tc.c, m, wire.ProtocolVersion, l1Magic)
 	return err
@@ -123,10 +134,23 @@ func (p *tcpPeer) serve(tc *tcpConn) {
 			return
 		}
 		tc.mu.Lock()
-		if len(tc.recvd) < 2000 {
-			tc.recvd = append(tc.recvd, describeMsg(msg))
+		if _, isPong := msg.(*wire.MsgPong); !isPong && len(tc.recvd) < 2000 {
+			tc.recvd = append(tc.recvd, "node->peer "+describeMsg(msg))
 		}
 		tc.mu.Unlock()
+		p.mu.Lock()
+		hook, delay := p.hook, p.blockDelay
+		p.mu.Unlock()
+		if hook != nil {
+			if resp, done := hook(tc, msg); done {
+				for _, m := range resp {
+					if tc.write(m) != nil {
+						return
+					}
+				}
+				continue
+			}
+		}
 		p.mu.Lock()
 		silent, hold, closeOn := p.silent, p.holdBlocks, p.closeOnBlockGetData
 		tc.sim.tip = p.sim.tip
@@ -142,9 +166,24 @@ func (p *tcpPeer) serve(tc *tcpConn) {
 				}
 			} else {
 				resp = tc.sim.respond(msg)
+				if _, isVersion := msg.(*wire.MsgVersion); isVersion && p.sendAddrs {
+					am := wire.NewMsgAddr()
+					for j := 0; j < 3; j++ {
+						am.AddAddress(wire.NewNetAddressIPPort([]byte{127, 0, 0, 1}, uint16(1+j+3*tc.id), 0))
+					}
+					resp = append(resp, am)
+				}
 			}
 		}
 		p.mu.Unlock()
+		if delay > 0 {
+			for _, m := range resp {
+				if m.Command() == wire.CmdBlock {
+					time.Sleep(delay)
+					break
+				}
+			}
+		}
 		for _, m := range resp {
 			if tc.write(m) != nil {
 				return
@@ -157,6 +196,20 @@ func (p *tcpPeer) setTip(b *verifkit.Block) {
 	p.mu.Lock()
 	p.sim.tip = b
 	p.mu.Unlock()
+}
+
+// wireLog returns, per connection, what was read from and written to the node (pings left out).
+func (p *tcpPeer) wireLog() [][]string {
+	p.mu.Lock()
+	conns := append([]*tcpConn(nil), p.conns...)
+	p.mu.Unlock()
+	var out [][]string
+	for _, tc := range conns {
+		tc.mu.Lock()
+		out = append(out, append([]string(nil), tc.recvd...))
+		tc.mu.Unlock()
+	}
+	return out
 }
 
 func (p *tcpPeer) connections() int { return int(atomic.LoadInt32(&p.accepted)) }
@@ -189,12 +242,19 @@ type l1Env struct {
 }
 
 func newL1(peer *tcpPeer, addr string, store *verifkit.Store, startHash bitcoin.Hash32, pushDatas [][]byte, uni *verifkit.Universe, log *eventLog) *l1Env {
+	return newL1Opt(peer, addr, store, startHash, pushDatas, uni, log, nil)
+}
+
+func newL1Opt(peer *tcpPeer, addr string, store *verifkit.Store, startHash bitcoin.Hash32, pushDatas [][]byte, uni *verifkit.Universe, log *eventLog, tweak func(*config.Config)) *l1Env {
 	e := &l1Env{peer: peer, store: store, log: log, runDone: make(chan error, 1)}
 	if e.log == nil {
 		e.log = newEventLog()
 	}
 	e.cfg = config.Config{Net: bitcoin.MainNet, IsTest: true, NodeAddress: addr, UserAgent: "/verif-l1/",
 		StartHash: startHash, UntrustedCount: 0, SafeTxDelay: 300, ShotgunCount: 1, MaxRetries: 1000000, RetryDelay: 30}
+	if tweak != nil {
+		tweak(&e.cfg)
+	}
 	e.fetch = &uniFetcher{uni: uni}
 	e.node = NewNode(e.cfg, store, e.fetch, e.fetch)
 	for i := 0; i < 2; i++ {
